@@ -30,7 +30,7 @@ COMMON_SUFFIX = (' Workloads of every check also hold, where the property\'s qua
                  '(hundreds to thousands of operations, earlier states revisited from anywhere in the history), steps of a few '
                  'parts per billion and values below 1e-8, spectral grids of thousands of points, documented options at '
                  'non-default values or changed while objects live, and other input representations (integer, single-precision, '
-                 'masked, 0-d arrays); see DESIGN.md 8.5, rounds m-p.')
+                 'masked, 0-d arrays); see DESIGN.md 8.5, rounds m-q.')
 hooks_path = os.path.join(ROOT, 'tools', 'hook_commits.json')
 hook_commits = json.load(open(hooks_path)) if os.path.exists(hooks_path) else []
 checks, na = [], []
